@@ -248,37 +248,47 @@ def check_raw(ctx, tu, info):
         elif f.skey == 'anydata_internal_::LargeData::LargeData' and f.d.get('ctor') not in ('copy', 'move', 'default'):
             news = [n for n, o in f.nodes.items() if o['cls'] == 'CXXNewExpr' and not o.get('placement')]
             ws = [w for w in info.writes(f) if w['path'] in (('this', '.data'), ('this', '.deleter')) and w['how'] == 'assign']
-            okn = len(news) == 1 and {w['path'][1] for w in ws} == {'.data', '.deleter'}
+            # the value a member ends up with: the assignment in the body, or its member initialiser when the body does not assign it
+            src = {w['path'][1]: w['rhs'] for w in ws if w.get('rhs')}
+            for i in f.d.get('inits', []):
+                m = '.' + str(i.get('member'))
+                if m in ('.data', '.deleter') and m not in src and i.get('n') and \
+                        f.nodes[f.strip_all_casts(i['n'])]['cls'] not in ('ImplicitValueInitExpr', 'CXXScalarValueInitExpr', 'CXXNullPtrLiteralExpr', 'InitListExpr'):
+                    src[m] = i['n']
+            okn = len(news) == 1 and set(src) == {'.data', '.deleter'}
             if okn:
-                # deleter is for exactly the allocated type
+                # the object allocated is what `data` receives, and the deleter is for exactly the allocated type
                 alloc = tu.tstr(f.nodes[news[0]].get('alloc'))
-                dl = [w for w in ws if w['path'][1] == '.deleter'][0]
-                dref = [d for d in f.descendants(dl['rhs']) if f.nodes[d]['cls'] == 'DeclRefExpr' and f.decl(d)['kind'] == 'func']
-                okn = bool(dref) and ('funcDeleteObject<%s>' % alloc) in f.decl(dref[0]).get('q', '').replace('class ', '')
+                okn = news[0] in [src['.data']] + f.descendants(src['.data'])
+                dref = [d for d in [src['.deleter']] + f.descendants(src['.deleter']) if f.nodes[d]['cls'] == 'DeclRefExpr' and f.decl(d)['kind'] == 'func']
+                okn = okn and bool(dref) and ('funcDeleteObject<%s>' % alloc) in f.decl(dref[0]).get('q', '').replace('class ', '')
             ctx.ob('C08.O', f, 'LargeData allocates one object and stores the matching deleter', okn)
         elif f.skey == 'AnyData::~AnyData':
-            ind = [n for n in f.calls() if f.nodes[n].get('c', 0) == -1 and last_field(path(f, f.nodes[n]['calleeExpr'])) == 'free']
+            b_ = f.body_helper or f       # the body may be one call of a private helper taking the object explicitly
+            ind = [n for n in b_.calls() if b_.nodes[n].get('c', 0) == -1 and last_field(path(b_, b_.nodes[n]['calleeExpr'])) == 'free']
             ok = len(ind) == 1
             if ok:
                 dom = False
-                for bid, blk in f.blocks.items():
+                for bid, blk in b_.blocks.items():
                     c = blk.get('cond')
                     if c and len(blk['succ']) == 2:
-                        role = cond_is_nonnull(f, c, 'functions')
-                        if role and edge_dominates(f, bid, role, f.pos(ind[0])):
+                        role = cond_is_nonnull(b_, c, 'functions')
+                        if role and edge_dominates(b_, bid, role, b_.pos(ind[0])):
                             dom = True
-                a = f.call_args(ind[0])
-                ok = dom and len(a) == 1 and 'buffer' in fields_in(path(f, f.strip_all_casts(a[0])))
+                a = b_.call_args(ind[0])
+                pa = path(b_, b_.strip_all_casts(a[0])) if len(a) == 1 else ()
+                ok = dom and len(a) == 1 and 'buffer' in fields_in(pa) and pa[0] == 'this'
             ctx.ob('C08.O', f, '~AnyData destroys the held object exactly when it holds one', ok)
         elif f.skey == 'AnyData::AnyData' and f.d.get('ctor') == 'move':
             inits = {i.get('member'): i for i in f.d.get('inits', [])}
             other = f.params[0]['id']
             okf = 'functions' in inits and inits['functions'].get('n') and root_var_id(path(f, inits['functions']['n'])) == other and \
                 last_field(path(f, inits['functions']['n'])) == 'functions'
-            ind = [n for n in f.calls() if f.nodes[n].get('c', 0) == -1 and last_field(path(f, f.nodes[n]['calleeExpr'])) == 'moveConstruct']
+            b_ = f.body_helper or f
+            ind = [n for n in b_.calls() if b_.nodes[n].get('c', 0) == -1 and last_field(path(b_, b_.nodes[n]['calleeExpr'])) == 'moveConstruct']
             okm = len(ind) == 1
             if okm:
-                a = [path(f, f.strip_all_casts(x)) for x in f.call_args(ind[0])]
+                a = [path(b_, b_.strip_all_casts(x)) for x in b_.call_args(ind[0])]
                 okm = len(a) == 2 and root_var_id(a[0]) == other and 'buffer' in fields_in(a[0]) and a[1][0] == 'this' and 'buffer' in fields_in(a[1])
             ctx.ob('C08.O', f, 'moving an AnyData move-constructs the held object from the source buffer into its own buffer, with the same table', bool(okf and okm))
             srcw = [w for w in info.writes(f) if root_var_id(w['path']) == other and w['how'] in ('assign', 'call:reset', '++', '--')]
